@@ -9,6 +9,8 @@ Driver for C12.  Request lines (tokens separated by blanks):
   inv    <R> <U|L> <A>
   schur  <R> <U|L> <r> <wt> <M>   reply  ok <dense S> <t>   (t = 1 iff wt = 0, or the transfer maps are present and satisfy the identities)
   decomp <R> <M>                  reply  ok <group>*   group = rows|cols (comma separated, `-` for none), sorted by first column
+  decompchk <R> <M>               reply  1 iff the verified checker accepts the MODEL's (p, q, blocks)
+  chkdecomp <R> <M> <m p…> <n q…> <nb> <block>*   reply 1 iff the verified checker accepts the given (real) output
   uf <n> <op>*                    ops  u:i:j  s:i:j  g     reply: one token per s/g op
 
 <R> ∈ Z | Q | F5 | G.   A matrix is  m n k (i j v)^k  — the k stored entries in CSC order, stored zeros included.
@@ -60,6 +62,23 @@ def parseMat (ts : List String) : Option (SpMat α × List String) :=
     let (cols, rest) ← parseTrip io m n k ts (Array.replicate n []) 0
     some (⟨m, n, cols⟩, rest)
   | _ => none
+
+/-- `k x1 … xk` -/
+def parseNats (ts : List String) : Option (List Nat × List String) :=
+  match ts with
+  | k :: ts => do
+    let k ← parseNat? k
+    if ts.length < k then none else
+    let xs ← (ts.take k).mapM parseNat?
+    some (xs, ts.drop k)
+  | [] => none
+
+def parseMats : Nat → List String → Option (List (SpMat α) × List String)
+  | 0, ts => some ([], ts)
+  | k + 1, ts => do
+    let (m, ts) ← parseMat io ts
+    let (ms, ts) ← parseMats k ts
+    some (m :: ms, ts)
 
 def dense (A : SpMat α) : String :=
   let es := (List.range A.nrows).flatMap fun i => (List.range A.ncols).map fun j => io.shw (entry A i j)
@@ -130,6 +149,24 @@ def handleR (cmd : String) (ts : List String) : String :=
       some (match dirSumDecomp M with
         | .ok o => partition M o
         | .panic => "panic" | .err => "err")).getD "bad-request"
+  | "decompchk", ts => (do
+      -- the model's own decomposition, judged by the verified checker
+      let (M, ts) ← parseMat io ts
+      if !ts.isEmpty then none else
+      some (match dirSumDecomp M with
+        | .ok o => if checkDecomp M o.p o.q o.blocks then "1" else "0"
+        | .panic => "panic" | .err => "err")).getD "bad-request"
+  | "chkdecomp", ts => (do
+      -- the REAL output (p, q, blocks) of `dir_sum_decomp`, judged by the verified checker
+      let (M, ts) ← parseMat io ts
+      let (p, ts) ← parseNats ts
+      let (q, ts) ← parseNats ts
+      match ts with
+      | nb :: ts => do
+        let nb ← parseNat? nb
+        let (bl, ts) ← parseMats io nb ts
+        if !ts.isEmpty then none else some (if checkDecomp M p.toArray q.toArray bl then "1" else "0")
+      | [] => none).getD "bad-request"
   | _, _ => "bad-request"
 
 end
